@@ -217,8 +217,12 @@ class AxisTaint:
         if o == "if":
             c = t.cond
             # `if not c: A else: B` is `if c: B else: A`
-            from ..tutil import atom
+            from ..tutil import atom, pos_form
 
+            if c.op == "un" and c.opname == "Not" and c.x.op == "bool":
+                # De Morgan: `not (axis is None or axis >= 0)` is `axis is not None and axis < 0`
+                c = pos_form(c)
+                t = _same_branches(t, c)
             a_, pol_ = atom(c)
             if a_ is not c:
                 c = a_
